@@ -136,11 +136,12 @@ theorem proveAux_single (fuel d : Nat) (k0 : Key) (v0 : VH) (k : Key) :
 theorem honest_tip (fuel d : Nat) (X : List (Key × VH)) (pos : List Bool) (k : Key)
     (hpos : pos.length = d) (hc : Canon fuel d X) (hX : ∀ kv ∈ X, kv.1.length = d + fuel ∧ pos <+: kv.1)
     (hk : k.length = d + fuel ∧ pos <+: k) :
-    ∃ T, Shape pos [proveAux H fuel d X k] T ∧ T.hash H = nodeAt H fuel d X := by
+    ∃ T, Shape pos [proveAux H fuel d X k] T ∧ T.hash H = nodeAt H fuel d X ∧
+      (T.mpaths pos).map (·.depth) = [d + (proveAux H fuel d X k).2.length] := by
   have hkt : k.take d = pos := by rw [← hpos]; exact (bl_prefix_iff_take _ _).1 hk.2
   have hlen := proveAux_len H fuel d X k
   refine ⟨.tip (proveAux H fuel d X k).1 ((k.drop d).take (proveAux H fuel d X k).2.length)
-    (proveAux H fuel d X k).2, ?_, ?_⟩
+    (proveAux H fuel d X k).2, ?_, ?_, ?_⟩
   · apply Shape.tip
     · have := proveAux_path H fuel d X k (by
         intro kv hkv
@@ -151,12 +152,15 @@ theorem honest_tip (fuel d : Nat) (X : List (Key × VH)) (pos : List Bool) (k : 
       exact this
     · simp only [List.length_take, List.length_drop]; omega
   · exact proveAux_hash H fuel d X k hc (by omega)
+  · simp only [PTree.mpaths, List.map_cons, List.map_nil, List.length_take, List.length_drop, hpos]
+    congr 1; omega
 
 theorem honest_shape : ∀ (fuel d : Nat) (X : List (Key × VH)) (pos : List Bool) (ks : List Key),
     pos.length = d → Canon fuel d X → (∀ kv ∈ X, kv.1.length = d + fuel ∧ pos <+: kv.1) → ks ≠ [] →
     (∀ k ∈ ks, k.length = d + fuel ∧ pos <+: k) →
     ks.Pairwise (fun a b => bitsLt (proveAux H fuel d X a).1.path (proveAux H fuel d X b).1.path = true) →
-    ∃ T, Shape pos (ks.map (fun k => proveAux H fuel d X k)) T ∧ T.hash H = nodeAt H fuel d X := by
+    ∃ T, Shape pos (ks.map (fun k => proveAux H fuel d X k)) T ∧ T.hash H = nodeAt H fuel d X ∧
+      (T.mpaths pos).map (·.depth) = ks.map (fun k => d + (proveAux H fuel d X k).2.length) := by
   intro fuel
   induction fuel with
   | zero =>
@@ -261,19 +265,26 @@ theorem honest_shape : ∀ (fuel d : Nat) (X : List (Key × VH)) (pos : List Boo
           rw [← hXe]; exact nodeAt_two H f d a b r
         -- all keys on one side: one more common bit
         have hcommon : ∀ (bit : Bool), (∀ k ∈ ks, k.getD d false = bit) →
-            ∃ T, Shape pos (ks.map (fun k => proveAux H (f+1) d X k)) T ∧ T.hash H = nodeAt H (f+1) d X := by
+            ∃ T, Shape pos (ks.map (fun k => proveAux H (f+1) d X k)) T ∧ T.hash H = nodeAt H (f+1) d X ∧
+              (T.mpaths pos).map (·.depth) = ks.map (fun k => d + (proveAux H (f+1) d X k).2.length) := by
           intro bit hall
-          obtain ⟨T', hsh', hh'⟩ := ih (d+1) (side d bit X) (pos ++ [bit]) ks (by simp [hpos])
+          obtain ⟨T', hsh', hh', hd'⟩ := ih (d+1) (side d bit X) (pos ++ [bit]) ks (by simp [hpos])
             (by rw [← hXe]; exact Canon_side f d _ bit (by rw [hXe]; exact hc)) (hside bit)
             (by intro h; rw [h] at hks2; simp at hks2)
             (fun k hk => hkeys bit k hk (hall k hk)) (hasc' bit ks (List.Sublist.refl _) hall)
           obtain ⟨seg, cs, Tl, Tr, rfl⟩ := hsh'.is_fork (by simpa using hks2)
-          refine ⟨.fork (bit :: seg) (nodeAt H f (d+1) (side d (!bit) X) :: cs) Tl Tr, ?_, ?_⟩
+          refine ⟨.fork (bit :: seg) (nodeAt H f (d+1) (side d (!bit) X) :: cs) Tl Tr, ?_, ?_, ?_⟩
           · rw [← hitems bit ks hall]
             exact hsh'.cons_common bit _
           · simp only [PTree.hash, hashPath] at hh' ⊢
             rw [hh', hnode]
             cases bit <;> simp
+          · have e : pos ++ bit :: seg = pos ++ [bit] ++ seg := by simp
+            simp only [PTree.mpaths] at hd' ⊢
+            rw [e, hd']
+            apply List.map_congr_left
+            intro k hk
+            rw [hstep k, List.length_cons, hall k hk]; omega
         by_cases hle : kl = []
         · -- everything on the `1`-side
           apply hcommon true
@@ -288,15 +299,15 @@ theorem honest_shape : ∀ (fuel d : Nat) (X : List (Key × VH)) (pos : List Boo
           · -- a bisection at this bit
             have hsubl : kl.Sublist ks := by rw [← hkl]; exact List.filter_sublist
             have hsubr : kr.Sublist ks := by rw [← hkr]; exact List.filter_sublist
-            obtain ⟨Tl, hshl, hhl⟩ := ih (d+1) (side d false X) (pos ++ [false]) kl (by simp [hpos])
+            obtain ⟨Tl, hshl, hhl, hdl⟩ := ih (d+1) (side d false X) (pos ++ [false]) kl (by simp [hpos])
               (by rw [← hXe]; exact Canon_side f d _ false (by rw [hXe]; exact hc)) (hside false) hle
               (fun k hk => hkeys false k (hklm k hk).1 (hklm k hk).2)
               (hasc' false kl hsubl (fun k hk => (hklm k hk).2))
-            obtain ⟨Tr, hshr, hhr⟩ := ih (d+1) (side d true X) (pos ++ [true]) kr (by simp [hpos])
+            obtain ⟨Tr, hshr, hhr, hdr⟩ := ih (d+1) (side d true X) (pos ++ [true]) kr (by simp [hpos])
               (by rw [← hXe]; exact Canon_side f d _ true (by rw [hXe]; exact hc)) (hside true) hre
               (fun k hk => hkeys true k (hkrm k hk).1 (hkrm k hk).2)
               (hasc' true kr hsubr (fun k hk => (hkrm k hk).2))
-            refine ⟨.fork [] [] Tl Tr, ?_, ?_⟩
+            refine ⟨.fork [] [] Tl Tr, ?_, ?_, ?_⟩
             · have hdropL : (kl.map (fun k => proveAux H (f+1) d X k)).map (fun it => (it.1, it.2.drop (([] : List Node).length + 1)))
                   = kl.map (fun k => proveAux H f (d+1) (side d false X) k) := by
                 rw [List.map_map]
@@ -329,11 +340,27 @@ theorem honest_shape : ∀ (fuel d : Nat) (X : List (Key × VH)) (pos : List Boo
               · rw [hdropL, List.append_nil]; exact hshl
               · rw [hdropR, List.append_nil]; exact hshr
             · simp only [PTree.hash, hashPath, hhl, hhr, hnode]
+            · simp only [PTree.mpaths, List.append_nil, List.map_append, hdl, hdr]
+              rw [hpart, List.map_append]
+              congr 1
+              · apply List.map_congr_left
+                intro k _
+                rw [hstep k, List.length_cons, (hklm k (by assumption)).2]; omega
+              · apply List.map_congr_left
+                intro k _
+                rw [hstep k, List.length_cons, (hkrm k (by assumption)).2]; omega
+
+theorem PTree.vpaths_depths : ∀ (T : PTree Node VH) (pos : List Bool) (off : Nat),
+    (T.vpaths pos off).map (fun vp => vp.depth) = (T.mpaths pos).map (fun p => p.depth)
+  | .tip _ _ _, _, _ => rfl
+  | .fork _ _ l r, _, _ => by
+    simp only [PTree.vpaths, PTree.mpaths, List.map_append, PTree.vpaths_depths l, PTree.vpaths_depths r]
 
 /-- **completeness of multi-proofs**: the specified path proofs of `L`-bit keys of a canonical set `S`,
 in an order in which their terminal paths strictly ascend, are merged by `from_path_proofs` into a
 multi-proof which `verify` accepts against the root of `S`; the verified terminals are those of the path
-proofs, in order. -/
+proofs, in order, each at the depth of its path proof (the number of its siblings), and every proved key
+is in scope of the verified multi-proof. -/
 theorem fromPathProofs_complete (L : Nat) (S : List (Key × VH)) (hc : Canon L 0 S)
     (hlen : ∀ kv ∈ S, kv.1.length = L) (ks : List Key) (hne : ks ≠ []) (hkl : ∀ k ∈ ks, k.length = L)
     (hasc : (ks.map (fun k => (proveSpec H L S k).terminal.path)).Pairwise (fun a b => bitsLt a b = true)) :
@@ -341,9 +368,12 @@ theorem fromPathProofs_complete (L : Nat) (S : List (Key × VH)) (hc : Canon L 0
       fromPathProofs (ks.map (proveSpec H L S)) = .ok mp ∧
       verifyMulti H mp (nodeAt H L 0 S) = .ok v ∧
       v.inner.map (·.terminal) = (ks.map (proveSpec H L S)).map (·.terminal) ∧
+      v.inner.map (·.depth) = (ks.map (proveSpec H L S)).map (·.siblings.length) ∧
       mp.paths.map (·.terminal) = (ks.map (proveSpec H L S)).map (·.terminal) ∧
-      v.siblings = mp.siblings ∧ v.root = nodeAt H L 0 S := by
-  obtain ⟨T, hsh, hhash⟩ := honest_shape H L 0 S [] ks rfl hc
+      v.siblings = mp.siblings ∧ v.root = nodeAt H L 0 S ∧
+      (∀ k ∈ ks, ∃ (j : Nat) (t : VPath VH), v.inner[j]? = some t ∧
+        k.take t.depth = t.terminal.path.take t.depth) := by
+  obtain ⟨T, hsh, hhash, hdep⟩ := honest_shape H L 0 S [] ks rfl hc
     (fun kv hkv => ⟨by rw [hlen kv hkv]; omega, List.nil_prefix⟩) hne
     (fun k hk => ⟨by rw [hkl k hk]; omega, List.nil_prefix⟩)
     (by rw [List.pairwise_map] at hasc; exact hasc)
@@ -355,8 +385,35 @@ theorem fromPathProofs_complete (L : Nat) (S : List (Key × VH)) (hc : Canon L 0
   rw [hhash] at hver
   have hterm : (T.mpaths []).map (·.terminal) = (ks.map (proveSpec H L S)).map (·.terminal) := by
     rw [hsh.terminals, List.map_map, List.map_map]; apply List.map_congr_left; intro k _; rfl
-  refine ⟨_, _, hfrom, hver, ?_, hterm, rfl, rfl⟩
-  simp only
-  rw [PTree.vpaths_terminals, hterm]
+  have hdepth : (T.vpaths [] 0).map (·.depth) = (ks.map (proveSpec H L S)).map (·.siblings.length) := by
+    rw [PTree.vpaths_depths, hdep, List.map_map]; apply List.map_congr_left; intro k _
+    simp [proveSpec]
+  have hterm' : (T.vpaths [] 0).map (·.terminal) = (ks.map (proveSpec H L S)).map (·.terminal) := by
+    rw [PTree.vpaths_terminals, hterm]
+  refine ⟨_, _, hfrom, hver, hterm', hdepth, hterm, rfl, rfl, ?_⟩
+  intro k hk
+  obtain ⟨j, hj, hkj⟩ := List.mem_iff_getElem.1 hk
+  have hjl : j < (T.vpaths [] 0).length := by
+    have := congrArg List.length hterm'
+    simp only [List.length_map] at this
+    omega
+  refine ⟨j, (T.vpaths [] 0)[j], List.getElem?_eq_getElem hjl, ?_⟩
+  have ht : ((T.vpaths [] 0)[j]).terminal = (proveSpec H L S k).terminal := by
+    have := congrArg (fun l => l[j]?) hterm'
+    simp only [List.getElem?_map, List.getElem?_eq_getElem hjl, List.getElem?_eq_getElem hj, Option.map, hkj] at this
+    injection this
+  have hd : ((T.vpaths [] 0)[j]).depth = (proveSpec H L S k).siblings.length := by
+    have := congrArg (fun l => l[j]?) hdepth
+    simp only [List.getElem?_map, List.getElem?_eq_getElem hjl, List.getElem?_eq_getElem hj, Option.map, hkj] at this
+    injection this
+  rw [ht, hd]
+  have hp := proveAux_path H L 0 S k (fun kv hkv => ⟨by rw [hlen kv hkv]; omega, by simp⟩)
+    (by rw [hkl k hk]; omega) hc
+  rw [Nat.zero_add] at hp
+  have hn := proveAux_len H L 0 S k
+  have := prefix_take_eq _ _ hp (proveSpec H L S k).siblings.length (by
+    simp only [proveSpec, List.length_take]; rw [hkl k hk]; omega)
+  simp only [proveSpec] at this ⊢
+  rw [this, List.take_take, Nat.min_self]
 
 end Nomt
